@@ -126,16 +126,18 @@ def structured(f):
     return g
 
 
-def _ends(blk) -> bool:
-    """the block cannot complete normally (syntactic): last statement is return / raise / continue / break, or an
-    if whose both branches end"""
+_ALL_ENDS = (ast.Return, ast.Raise, ast.Continue, ast.Break)
+
+
+def _ends(blk, kinds=_ALL_ENDS) -> bool:
+    """the block cannot complete normally (syntactic): last statement is one of `kinds`, or an if whose both branches end so"""
     if not blk:
         return False
     s = blk[-1]
-    if isinstance(s, (ast.Return, ast.Raise, ast.Continue, ast.Break)):
+    if isinstance(s, kinds):
         return True
     if isinstance(s, ast.If):
-        return _ends(s.body) and _ends(s.orelse)
+        return _ends(s.body, kinds) and _ends(s.orelse, kinds)
     return False
 
 
@@ -157,7 +159,7 @@ def _pattern_test(subject, pat):
     return None
 
 
-def path_conditions(fn: ast.AST, target: ast.AST) -> list[ast.AST]:
+def path_conditions(fn: ast.AST, target: ast.AST, guard_ends=_ALL_ENDS) -> list[ast.AST]:
     """Conjuncts (negation normal form) that hold whenever `target` is reached, as far as the syntax shows: the tests
     of enclosing if / elif / else / while / match-case arms, and the negated tests of earlier guard clauses of the
     same block whose body cannot complete normally (`if not ok: return` ... target)."""
@@ -172,9 +174,9 @@ def path_conditions(fn: ast.AST, target: ast.AST) -> list[ast.AST]:
                 continue
             for prev in blk[:i]:
                 if isinstance(prev, ast.If):
-                    if _ends(prev.body) and not _ends(prev.orelse):
+                    if _ends(prev.body, guard_ends) and not _ends(prev.orelse):
                         out.extend(conjuncts(negate(prev.test)))
-                    elif prev.orelse and _ends(prev.orelse) and not _ends(prev.body):
+                    elif prev.orelse and _ends(prev.orelse, guard_ends) and not _ends(prev.body):
                         out.extend(conjuncts(prev.test))
             stmt(s)
             return
